@@ -9,6 +9,7 @@ use std::io::Write;
 pub fn main(sub: &str, args: &[String]) -> i32 {
     match sub {
         "ps-run" => run(args),
+        "qs-run" => qs_run(args),
         _ => {
             eprintln!("unknown subcommand {}", sub);
             2
@@ -97,5 +98,156 @@ fn run(args: &[String]) -> i32 {
     }
     out.flush().unwrap();
     println!("{}", json!({"sessions": sessions, "parses": parses}));
+    0
+}
+
+// ---------------------------------------------------------------------------------------------------------
+// query sessions (QuerySession.tla): one parsed document, one evaluation context, a series of queries
+
+use xml_dom::{AsNode, Node};
+
+/// id -> structural path of every node reachable through child_nodes() / attributes()
+fn paths_of(doc: &xml_dom::XmlNode) -> std::collections::HashMap<usize, String> {
+    fn walk(nd: &xml_dom::XmlNode, path: String, m: &mut std::collections::HashMap<usize, String>, elem: bool) {
+        // attributes supplied by the DTD share one id in this crate: they are told apart by name below
+        if elem {
+            m.insert(nd.id(), path.clone());
+        }
+        if let Some(attrs) = nd.attributes() {
+            for a in attrs.iter() {
+                let an = a.as_node();
+                if an.id() != 0 {
+                    m.insert(an.id(), format!("{}/@{}", path, an.node_name()));
+                }
+            }
+        }
+        for (i, c) in nd.child_nodes().iter().enumerate() {
+            walk(&c, format!("{}/{}", path, i + 1), m, true);
+        }
+    }
+    let mut m = std::collections::HashMap::new();
+    walk(doc, String::new(), &mut m, true);
+    m
+}
+
+/// an opaque, comparable rendering of the answer to a query
+fn answer(doc: &xml_dom::XmlDocument, expr: &str, ctx: &mut xml_xpath::eval::model::Context) -> J {
+    use xml_xpath::eval::model::Value;
+    let d = doc.clone();
+    let r = std::panic::catch_unwind(std::panic::AssertUnwindSafe(|| xml_xpath::query(d, expr, ctx).map_err(|e| e.to_string())));
+    match r {
+        Err(_) => json!({"t": "panic"}),
+        Ok(Err(_)) => json!({"t": "err"}),
+        Ok(Ok(v)) => match v {
+            Value::Node(ns) => {
+                let idx = paths_of(&doc.as_node());
+                let mut out = vec![];
+                for x in ns.iter() {
+                    let own = match x {
+                        xml_dom::XmlNode::Attribute(_) | xml_dom::XmlNode::Namespace(_) => format!("{}", x),
+                        _ => String::new(),
+                    };
+                    match idx.get(&x.id()) {
+                        Some(p) if x.id() != 0 => out.push(J::from(p.clone())),
+                        // namespace nodes and DTD-supplied attributes: what they print as, under their parent's path
+                        _ => {
+                            let pp = x.parent_node().and_then(|p| idx.get(&p.id()).cloned()).unwrap_or_else(|| "?".into());
+                            out.push(J::from(format!("{}/~{}", pp, own)));
+                        }
+                    }
+                }
+                json!({"t": "nodes", "v": out})
+            }
+            Value::Boolean(b) => json!({"t": "bool", "v": b}),
+            Value::Number(x) => json!({"t": "num", "v": format!("{}", x)}),
+            Value::Text(s) => json!({"t": "str", "v": string_to_cps(&s)}),
+        },
+    }
+}
+
+fn parse_doc(text: &str) -> Option<xml_dom::XmlDocument> {
+    let t = text.to_string();
+    guarded(move || match xml_dom::XmlDocument::from_raw_with_context(&t, xml_dom::Context::from_text_expanded(true)) {
+        Ok((rest, d)) if rest.is_empty() => Some(d),
+        _ => None,
+    })
+    .unwrap_or(None)
+}
+
+fn ser_of(doc: &xml_dom::XmlDocument) -> J {
+    let d = doc.clone();
+    match guarded(move || d.to_string()) {
+        Ok(s) => string_to_cps(&s),
+        Err(_) => json!([0]),
+    }
+}
+
+fn qs_run(args: &[String]) -> i32 {
+    let inp = arg_value(args, "--in").unwrap_or("-");
+    let outp = arg_value(args, "--out").unwrap_or("-");
+    let mut out = open_out(outp);
+    let mut docs: std::collections::BTreeMap<i64, (String, Vec<String>)> = Default::default();
+    let mut sessions: Vec<(i64, Vec<usize>)> = vec![];
+    for_each_case(inp, |c| match c["k"].as_str().unwrap_or("") {
+        "qdoc" => {
+            let qs = c["queries"].as_array().map(|a| a.iter().map(cps_to_string).collect()).unwrap_or_default();
+            docs.insert(c["d"].as_i64().unwrap_or(0), (cps_to_string(&c["text"]), qs));
+        }
+        "qsession" => {
+            let qs = c["qs"].as_array().map(|a| a.iter().filter_map(|x| x.as_u64().map(|v| v as usize)).collect()).unwrap_or_default();
+            sessions.push((c["d"].as_i64().unwrap_or(0), qs));
+        }
+        _ => {}
+    });
+    sessions.sort();
+    // fresh answers: every query on a parse of its own, with a context of its own, in a thread of its own
+    for (d, (text, qs)) in &docs {
+        let mut answers = vec![];
+        for q in qs {
+            let (t, q) = (text.clone(), q.clone());
+            answers.push(in_fresh_thread(move || match parse_doc(&t) {
+                Some(doc) => answer(&doc, &q, &mut Default::default()),
+                None => json!({"t": "unparsed"}),
+            }));
+        }
+        let t = text.clone();
+        let ser = in_fresh_thread(move || parse_doc(&t).map(|d| ser_of(&d)).unwrap_or(json!([0])));
+        writeln!(out, "{}", json!({"event": "fresh", "d": d, "answers": answers, "ser": ser})).unwrap();
+    }
+    let mut n = 0usize;
+    let mut calls = 0usize;
+    for (d, qs) in &sessions {
+        let (text, exprs) = match docs.get(d) {
+            Some(x) => x.clone(),
+            None => continue,
+        };
+        for variant in ["shared", "percall"] {
+            let (text, exprs, qs2) = (text.clone(), exprs.clone(), qs.clone());
+            let (answers, sers): (Vec<J>, Vec<J>) = in_fresh_thread(move || {
+                let doc = match parse_doc(&text) {
+                    Some(d) => d,
+                    None => return (qs2.iter().map(|_| json!({"t": "unparsed"})).collect(), qs2.iter().map(|_| json!([0])).collect()),
+                };
+                let mut shared = xml_xpath::eval::model::Context::default();
+                let mut a = vec![];
+                let mut s = vec![];
+                for q in &qs2 {
+                    let e = &exprs[*q - 1];
+                    if variant == "shared" {
+                        a.push(answer(&doc, e, &mut shared));
+                    } else {
+                        a.push(answer(&doc, e, &mut Default::default()));
+                    }
+                    s.push(ser_of(&doc));
+                }
+                (a, s)
+            });
+            calls += answers.len();
+            n += 1;
+            writeln!(out, "{}", json!({"event": "session", "d": d, "variant": variant, "qs": qs, "answers": answers, "sers": sers})).unwrap();
+        }
+    }
+    out.flush().unwrap();
+    println!("{}", json!({"sessions": n, "queries": calls, "docs": docs.len()}));
     0
 }
